@@ -305,7 +305,7 @@ func (s *Solver) Values(ts []*Term) ([]*Term, error) {
 		}
 	}
 	for i, t := range ts {
-		if s.dag != nil && s.dag.treeSize(t) > 4*dagThreshold {
+		if s.dag != nil && s.dag.treeSize(t) > 16<<20 {
 			return nil, fmt.Errorf("get-value: term too large to print (%d)", s.dag.treeSize(t))
 		}
 		s.send("(get-value (" + t.SMT() + "))")
